@@ -91,7 +91,19 @@ def r2_opacity_flags(ck, P):
                     # the loop guard compares the counter with n_stops
                     for br, succ in f.control_conditions(clear.bb.id):
                         if br.a and ('field', 'gradient.n_stops') in f.atoms(br.a[0]):
-                            loop_ok = True
+                            # exactly `i < n_stops` with i = 0, 1, 2, ...: the bound is the loaded count itself, the counter starts at 0 and steps by 1
+                            c = f.v(br.a[0])
+                            if c is None or c.op != 'icmp':
+                                continue
+                            a0, a1 = f.strip_casts(c.a[0]), f.strip_casts(c.a[1])
+                            pred = c.d['p']
+                            if pred in ('sgt', 'ugt'):
+                                a0, a1 = a1, a0; pred = 'slt'
+                            bound = f.v(a1); ctr = f.v(a0)
+                            if pred in ('slt', 'ult') and bound is not None and bound.op == 'load' and f.last_field(f.path(bound.a[0])) == 'gradient.n_stops' \
+                                    and ctr is not None and ctr.op == 'phi' and any(o[0] == 'c' and int(o[1]) == 0 for o in ctr.a) \
+                                    and any(o[0] == 'v' and f.v(o) is not None and f.v(o).op == 'add' and any(q[0] == 'c' and int(q[1]) == 1 for q in f.v(o).a) and any(q == ['v', ctr.i] for q in f.v(o).a) for o in ctr.a):
+                                loop_ok = True
                 radial_ok = False
                 for b in f.blocks:
                     t = b.term
